@@ -48,11 +48,12 @@ def render4(items, release=False, fmt=False):
     fmt: render with a custom formatter installed (bin c12 fmt): prints go through Environment::format."""
     reqs = []
     for src, ctx in items:
+        tpls = src if isinstance(src, dict) else {"main": src}
         for m in MODES:
             if fmt:
-                reqs.append({"src": src, "ctx": ctx, "undefined": m})
+                reqs.append({"templates": tpls, "ctx": ctx, "undefined": m})
             else:
-                reqs.append({"templates": {"main": src}, "main": "main", "ctx": ctx, "undefined": m, "ops": ["render"]})
+                reqs.append({"templates": tpls, "main": "main", "ctx": ctx, "undefined": m, "ops": ["render"]})
     if not reqs:
         res = []
     elif fmt:
@@ -311,6 +312,87 @@ NEVER = [
 ]
 
 
+def subst(tmpl, text):
+    """puts `text` at the `@` of a template or of every template of a {name: source} set"""
+    if isinstance(tmpl, dict):
+        return {k: v.replace("@", text) for k, v in tmpl.items()}
+    return tmpl.replace("@", text)
+
+
+def key_of(src):
+    return json.dumps(src, sort_keys=True) if isinstance(src, dict) else src
+
+
+# ---- the multi-template positions of the language (render "main"); `@` = where the site goes ----
+_BASE = "[{% block body %}base{% endblock %}]"
+_BASE2 = "[{% block a %}a{% endblock %}|{% block b %}b{% endblock %}]"
+_HELLO = "{% macro hello() %}hello{% endmacro %}"
+MT_SCAFFOLDS = {
+    # top level of an extending child: rendered into a discarding output
+    "child-top-before-extends": {"main": '@{% extends "base" %}{% block body %}child{% endblock %}', "base": _BASE},
+    "child-top-after-extends": {"main": '{% extends "base" %}@{% block body %}child{% endblock %}', "base": _BASE},
+    "child-top-between-blocks": {"main": '{% extends "base2" %}{% block a %}A{% endblock %}@{% block b %}B{% endblock %}', "base2": _BASE2},
+    "child-top-end": {"main": '{% extends "base" %}{% block body %}child{% endblock %}@', "base": _BASE},
+    "child-top-in-for": {"main": '{% extends "base" %}{% for q in [1, 2] %}@{% endfor %}{% block body %}child{% endblock %}', "base": _BASE},
+    "child-top-in-if": {"main": '{% extends "base" %}{% if true %}@{% endif %}{% block body %}child{% endblock %}', "base": _BASE},
+    "child-top-set-block": {"main": '{% extends "base" %}{% set z %}@{% endset %}{% block body %}child{% endblock %}', "base": _BASE},
+    "child-top-filter-block": {"main": '{% extends "base" %}{% filter upper %}@{% endfilter %}{% block body %}child{% endblock %}', "base": _BASE},
+    "child-top-macro-call": {"main": '{% extends "base" %}{% macro mm() %}@{% endmacro %}{{ mm() }}{% block body %}child{% endblock %}', "base": _BASE},
+    "child-top-call-block": {"main": '{% extends "base" %}{% macro mm() %}{{ caller() }}{% endmacro %}{% call mm() %}@{% endcall %}{% block body %}child{% endblock %}', "base": _BASE},
+    "child-top-include": {"main": '{% extends "base" %}{% include "inc" %}{% block body %}child{% endblock %}', "base": _BASE, "inc": "@"},
+    "child-top-import": {"main": '{% extends "base" %}{% from "mod" import hello %}{% block body %}{{ hello() }}{% endblock %}', "base": _BASE, "mod": "@" + _HELLO},
+    "grandchild-top": {"main": '{% extends "mid" %}@{% block body %}gc{% endblock %}', "mid": '{% extends "base" %}{% block body %}mid{% endblock %}', "base": _BASE},
+    "mid-top": {"main": '{% extends "mid" %}{% block body %}gc{% endblock %}', "mid": '{% extends "base" %}@{% block body %}mid{% endblock %}', "base": _BASE},
+    # blocks
+    "overriding-block": {"main": '{% extends "base" %}{% block body %}c@{% endblock %}', "base": _BASE},
+    "block-via-super": {"main": '{% extends "base" %}{% block body %}<{{ super() }}>{% endblock %}', "base": "[{% block body %}b@{% endblock %}]"},
+    "block-via-self": {"main": "{% block body %}b@{% endblock %}|{{ self.body() }}"},
+    "base-top": {"main": '{% extends "base" %}{% block body %}child{% endblock %}', "base": "[@{% block body %}{% endblock %}]"},
+    "base-block-not-overridden": {"main": '{% extends "base2" %}{% block a %}A{% endblock %}', "base2": "[{% block a %}a{% endblock %}|{% block b %}b@{% endblock %}]"},
+    "macro-in-overriding-block": {"main": '{% extends "base" %}{% block body %}{% macro mm() %}@{% endmacro %}{{ mm() }}{% endblock %}', "base": _BASE},
+    "set-block-in-overriding-block": {"main": '{% extends "base" %}{% block body %}{% set z %}@{% endset %}{{ z }}{% endblock %}', "base": _BASE},
+    "call-block-in-overriding-block": {"main": '{% extends "base" %}{% block body %}{% macro mm() %}{{ caller() }}{% endmacro %}{% call mm() %}@{% endcall %}{% endblock %}', "base": _BASE},
+    # include
+    "included": {"main": '<{% include "inc" %}>', "inc": "@"},
+    "included-in-loop": {"main": '{% for q in [1, 2] %}{% include "inc" %}{% endfor %}', "inc": "@"},
+    "included-in-block": {"main": '{% extends "base" %}{% block body %}{% include "inc" %}{% endblock %}', "base": _BASE, "inc": "@"},
+    "included-extending-child-top": {"main": '<{% include "child" %}>', "child": '{% extends "base" %}@{% block body %}c{% endblock %}', "base": _BASE},
+    "included-in-set-block": {"main": '{% set z %}{% include "inc" %}{% endset %}<{{ z }}>', "inc": "@"},
+    # import / from import: the module's top level is rendered into a discarding (from) or capturing (import as) output
+    "import-as-top": {"main": '{% import "mod" as m %}{{ m.hello() }}', "mod": "@" + _HELLO},
+    "from-import-top": {"main": '{% from "mod" import hello %}{{ hello() }}', "mod": "@" + _HELLO},
+    "from-import-top-after-macro": {"main": '{% from "mod" import hello %}{{ hello() }}', "mod": _HELLO + "@"},
+    "from-import-top-set-block": {"main": '{% from "mod" import hello %}{{ hello() }}', "mod": "{% set z %}@{% endset %}" + _HELLO},
+    "from-import-top-in-for": {"main": '{% from "mod" import hello %}{{ hello() }}', "mod": "{% for q in [1] %}@{% endfor %}" + _HELLO},
+    "from-import-top-macro-call": {"main": '{% from "mod" import hello %}{{ hello() }}', "mod": "{% macro inner() %}@{% endmacro %}{{ inner() }}" + _HELLO},
+    "from-import-in-macro": {"main": '{% macro outer() %}{% from "mod" import hello %}{{ hello() }}{% endmacro %}{{ outer() }}', "mod": "@" + _HELLO},
+    "import-as-macro-body": {"main": '{% import "mod" as m %}{{ m.hello() }}', "mod": "{% macro hello() %}h@{% endmacro %}"},
+    "from-import-macro-body": {"main": '{% from "mod" import hello %}{{ hello() }}', "mod": "{% macro hello() %}h@{% endmacro %}"},
+    "from-import-macro-calls-macro": {"main": '{% from "mod" import hello %}{{ hello() }}', "mod": "{% macro inner() %}i@{% endmacro %}{% macro hello() %}h{{ inner() }}{% endmacro %}"},
+    "from-import-call-block": {"main": '{% from "mod" import wrap %}{% call wrap() %}@{% endcall %}', "mod": "{% macro wrap() %}<{{ caller() }}>{% endmacro %}"},
+    "from-import-macro-in-set-block": {"main": '{% from "mod" import hello %}{% set z %}{{ hello() }}{% endset %}<{{ z }}>', "mod": "{% macro hello() %}h@{% endmacro %}"},
+}
+MT_SITES = [  # (name, class, site template, operand)
+    ("print", "print", "{{ @ }}", "u"), ("print-missing-attr", "print", "{{ @ }}", "{'k': 1}.zz"),
+    ("iterate", "iterate", "{% for i in @ %}x{% endfor %}", "u"), ("truth", "truth", "{% if @ %}a{% else %}b{% endif %}", "u"),
+    ("attr", "access", "{{ @ }}", "u.a"), ("item", "access", "{{ @ }}", "u[0]"),
+    ("is-defined", "never", "{{ @ is defined }}", "u"), ("default", "never", "{{ @|default(1) }}", "u"),
+    # filters / tests / operators with an undefined operand: the order of the modes only
+    ("f-upper", "order", "{{ @|upper }}", "u"), ("f-int", "order", "{{ @|int }}", "u"), ("f-sum", "order", "{{ @|sum }}", "u"),
+    ("f-first", "order", "{{ [@]|first }}", "u"), ("t-in", "order", "{{ 1 is in(@) }}", "u"), ("concat", "order", "{{ @ ~ 'z' }}", "u"),
+    ("cmp", "order", "{{ @ < 1 }}", "u"), ("not", "order", "{{ not @ }}", "u"), ("slice", "order", "{{ @[1:2] }}", "u"),
+]
+MT_SWEEP_SCAFFOLDS = ["child-top-after-extends", "from-import-top", "included", "import-as-top", "overriding-block"]
+
+
+def mt_probes():
+    out = []
+    for sn, sc in MT_SCAFFOLDS.items():
+        for cn, cls, st, op in MT_SITES:
+            out.append(("mt:%s:%s" % (sn, cn), cls, subst(sc, st), op))
+    return out
+
+
 def matrix_probes():
     """[(site id, class, template with @, operand)]"""
     out = list(CORE)
@@ -326,7 +408,7 @@ def matrix_probes():
     out += EXTRA_PRINT
     for an, at, ae, _ in ACCESS:
         out.append(("access:%s" % an, "access", at, ae))
-    return out
+    return out + mt_probes()
 
 
 NEVER_EXPECT = {"never:%s:%s" % (pn, un): ex for un, _ in UNDEFS for pn, _, ex in NEVER}
@@ -338,13 +420,13 @@ ACCESS_BASE.update({"core:attr": "u", "core:item": "u"})
 def reference_template(site, cls, tmpl, operand):
     """(template, mode index) whose rendering says what "yields nothing" / "is false" / "an undefined" means here"""
     if cls in ("print", "print-nested"):
-        return tmpl.replace("@", "''"), 2
+        return subst(tmpl, "''"), 2
     if cls == "iterate":
-        return tmpl.replace("@", "[]"), 2
+        return subst(tmpl, "[]"), 2
     if cls == "truth":
-        return tmpl.replace("@", "false"), 2
+        return subst(tmpl, "false"), 2
     if cls == "access":
-        return tmpl.replace("@", ACCESS_BASE[site]), 3
+        return subst(tmpl, ACCESS_BASE.get(site, "u")), 3
     return None, None
 
 
@@ -380,8 +462,8 @@ def judge_probe(site, cls, row, ref):
     elif cls == "never":
         want = NEVER_EXPECT.get(site)
         for i in range(4):
-            if row[i][0] != "ok" or (want is not None and row[i][1] != want):
-                dev.append("%s: %s (expected %r)" % (MODES[i], show(row[i]), want))
+            if row[i][0] != "ok" or (want is not None and row[i][1] != want) or row[i] != row[0]:
+                dev.append("%s: %s (expected %s)" % (MODES[i], show(row[i]), repr(want) if want is not None else "the same rendering under all four modes"))
     return dev
 
 
@@ -630,24 +712,25 @@ def main():
     # (iii) matrix probes
     # ------------------------------------------------------------------------------------------
     probes = matrix_probes()
-    items = [(t.replace("@", op), CTX) for _, _, t, op in probes]
+    items = [(subst(t, op), CTX) for _, _, t, op in probes]
     refs = [reference_template(s, c, t, op) for s, c, t, op in probes]
-    ref_items = sorted(set(rt for rt, _ in refs if rt))
+    ref_map = {key_of(rt): rt for rt, _ in refs if rt}
+    ref_keys = sorted(ref_map)
     deviations = []       # (site, class, template, row, devs)
     matrix_table = {}
     for rel, fmt in ((False, False), (True, False), (False, True)):
         rows = render4(items, release=rel, fmt=fmt)
-        ref_rows = dict(zip(ref_items, render4([(rt, CTX) for rt in ref_items], release=rel, fmt=fmt)))
-        evaluations += 4 * (len(items) + len(ref_items))
+        ref_rows = dict(zip(ref_keys, render4([(ref_map[k], CTX) for k in ref_keys], release=rel, fmt=fmt)))
+        evaluations += 4 * (len(items) + len(ref_keys))
         for (site, cls, tmpl, op), (src, _), row, (rt, rm) in zip(probes, items, rows, refs):
-            ref = ref_rows[rt][rm] if rt else None
+            ref = ref_rows[key_of(rt)][rm] if rt else None
             dev = judge_probe(site, cls, row, ref)
             mv = mono_violation(row)
             if not rel and not fmt:
-                hist["probe_" + cls] += 1
+                hist["probe_" + ("multi_template_" if site.startswith("mt:") else "") + cls] += 1
                 matrix_table[site] = row_show(row)
                 if len(set(o[0] for o in row)) > 1:
-                    nontriv.add(src)
+                    nontriv.add(key_of(src))
             if fmt:
                 hist["probe_custom_formatter"] += 1
             if mv:
@@ -776,6 +859,30 @@ def main():
                 hist["sweep_operator_or_tag"] += 1
                 if len(set(o[0] for o in row)) > 1:
                     nontriv.add(src)
+    # every built-in with an undefined operand, printed in the multi-template positions (order of the modes)
+    m_items = []
+    mt_sc = MT_SWEEP_SCAFFOLDS if chk.thorough else MT_SWEEP_SCAFFOLDS[:3]
+    for sid, kind, name, pos, expr in sweep:
+        if sid.split(":")[3].split("#")[0] == "u":
+            for sn in mt_sc:
+                m_items.append((subst(MT_SCAFFOLDS[sn], "{{ %s }}" % expr), CTX))
+    for e in OP_EXPRS:
+        for sn in mt_sc:
+            m_items.append((subst(MT_SCAFFOLDS[sn], "{{ %s }}" % e.replace("@", "u")), CTX))
+    for rel in profiles:
+        rows = render4(m_items, release=rel)
+        evaluations += 4 * len(m_items)
+        for (src, _), row in zip(m_items, rows):
+            if any(o[0] == "skip" for o in row):
+                hist["sweep_multi_template_syntax_error"] += 0 if rel else 1
+                continue
+            mv = mono_violation(row)
+            if mv:
+                report_mono(src, CTX, rel, {"site": "multi-template sweep"}, cap=12)
+            if not rel:
+                hist["sweep_multi_template"] += 1
+                if len(set(o[0] for o in row)) > 1:
+                    nontriv.add(key_of(src))
     chk.cov["string_coercion_table"] = coercion
     chk.cov["builtins_swept"] = {"filters": len(names["filters"]), "tests": len(names["tests"]), "functions": len(set(names["globals"]) | set(FUNC_CALLS)),
                                  "without_call_table_entry": unlisted, "templates": len(s_items)}
@@ -881,15 +988,16 @@ def main():
     chk.cov["evaluations"] = evaluations
     chk.cov["distinct_nontrivial"] = len(nontriv)
     chk.cov["rule"] = ("one evaluation = one render of one template under one mode by the engine. Cases: (a) typed random core-fragment programs (depth 2-4) with undefined forms at random expression positions x random contexts, x 4 modes, debug + release, each also run by the extracted interpreter; "
-                       "(b) matrix probes: print / iterate / truth-test / access / never-fail sites x syntactic positions x 4 kinds of undefined, x 4 modes, debug + release; (c) every filter / test / function of Environment::new() x argument position x 3 kinds of undefined x 5 positions (print, if, for, set, guarded), x 4 modes. "
+                       "(b) matrix probes: print / iterate / truth-test / access / never-fail sites x syntactic positions x 4 kinds of undefined, and the same sites in %d multi-template positions (top level of an extending child before / after extends / between blocks, overriding blocks, super(), self.block(), parent top level, include, import / from-import module top level and macros, call blocks, set blocks), x 4 modes, debug + release + custom formatter; " % len(MT_SCAFFOLDS) +
+                       "(c) every filter / test / function of Environment::new() x argument position x 3 kinds of undefined x 5 positions (print, if, for, set, guarded), x 4 modes, plus the operator / tag sweep and all of them printed in 5 multi-template positions. "
                        "non-trivial = distinct (template, context) on which the four modes do NOT all behave alike (some mode fails where another succeeds, or outputs differ) - the cases on which the order of the modes is actually exercised; generated programs additionally need >= 3 statement nodes")
-    chk.cov["samples"] = [g_items[0][0], g_items[len(g_items) // 2][0], s_items[len(s_items) // 3][0], items[len(items) // 2][0]]
+    chk.cov["samples"] = [g_items[0][0], g_items[len(g_items) // 2][0], s_items[len(s_items) // 3][0], items[100][0], items[-40][0]]
     chk.cov["distribution"] = {"outcome_patterns (strict,semistrict,lenient,chainable: k=ok u=UndefinedError e=other error)": {k: v for k, v in hist.items() if k.startswith("gen_")},
                                "probes_and_sweep": {k: v for k, v in hist.items() if not k.startswith("gen_")}, "program_sizes": dict(sizes), "ok_fraction_by_mode": {k: round(v, 3) for k, v in ok_frac.items()}}
     chk.cov["programs"] = len(progs)
     chk.cov["engine_vs_interpreter_disagreements"] = len(bad)
     chk.cov["monotonicity_violations_generated"] = len(mono_bad)
-    chk.cov["matrix_probe_table"] = {k: matrix_table[k] for k in sorted(matrix_table) if k.startswith("core:") or k.startswith("access:") or k.startswith("print:top") or k.startswith("print:list") or k.startswith("print:map") or k.startswith("print:join") or k.startswith("iterate:for:") or k.startswith("truth:if:")}
+    chk.cov["matrix_probe_table"] = {k: matrix_table[k] for k in sorted(matrix_table) if k.startswith("core:") or k.startswith("access:") or k.startswith("print:top") or k.startswith("print:list") or k.startswith("print:map") or k.startswith("print:join") or k.startswith("iterate:for:") or k.startswith("truth:if:") or (k.startswith("mt:") and k.endswith(":print"))}
     chk.cov["matrix_probes"] = len(probes)
     chk.cov["kernel_crosscheck"] = {"cases": len(small_cases) + 32, "agree": bool(kern_ok and kern_matrix_ok)}
     if not chk.violations:
